@@ -1755,7 +1755,13 @@ class Rule(metaclass=LogicalType):
         # IMPORTANT:
         # we must do clone here (as the parser do make_runtime)
         # to prompt a new RuntimeOptions, to collect the error in this layer
-        value = cls.pre_validate(value, context)
+        try:
+            value = cls.pre_validate(value, context)
+        except exc.ParseError:
+            raise
+        except Exception as e:
+            # (like the conversion below: whatever the hook raises for this value, the value does not parse)
+            context.handle_error(exc.ParseError(origin_exc=e), force_raise=True)
 
         if cls.__origin__:
             # no matter cls.__transformer__ is None or not
